@@ -203,6 +203,36 @@ def run(chk, scratch):
                                 exp = row[j] * 1e6 / tot
                                 if abs(tpm[feat][j] - exp) > 1e-3 + 1e-9 * exp:
                                     chk.violation("grouped-tpm-value", "%s: %s/%s TPM %.6f expected %.6f" % (desc, feat, g, tpm[feat][j], exp), wit)
+        # transcript-model tables: a read listed for n models of transcript_model_reads.tsv counts 1/n for each of them, under ITS group
+        if o.has("transcript_model_reads.tsv") and (parse.exists(o.path("transcript_model_grouped_counts.tsv")) or
+                                                   parse.exists(o.path("transcript_model_grouped_counts_linear.tsv"))):
+            models_of = defaultdict(set)
+            for read, m in o.model_reads():
+                if m != "*":
+                    models_of[read].add(m)
+            exp_m = defaultdict(lambda: defaultdict(Fraction))
+            multi = 0
+            for read, ms in models_of.items():
+                g_ = truth.get(read, "NA")
+                multi += len(ms) > 1
+                for m in ms:
+                    exp_m[m][g_] += Fraction(1, len(ms))
+            chk.count("reads_listed_for_several_models", multi)
+            triples = []
+            if fmt in ("both", "matrix") and parse.exists(o.path("transcript_model_grouped_counts.tsv")):
+                gh, mat = parse.read_matrix(o.path("transcript_model_grouped_counts.tsv"))
+                triples += [(m, g_, v) for m, row in mat.items() for g_, v in zip(gh, row)]
+            if fmt in ("both", "linear") and parse.exists(o.path("transcript_model_grouped_counts_linear.tsv")):
+                triples += list(parse.read_linear(o.path("transcript_model_grouped_counts_linear.tsv")))
+            for m, g_, v in triples:
+                if m.startswith("__"):
+                    continue
+                cells += 1
+                chk.note()
+                e = float(exp_m.get(m, {}).get(g_, Fraction(0)))
+                if abs(v - e) > 0.005 + 1e-9:
+                    chk.violation("model-grouped-cell-differs:%s" % mode, "%s: transcript_model grouped counts %s/%s printed %.2f, the reads listed for the model in that group give %.4f" %
+                                  (desc, m, g_, v, e), wit)
         # exon / intron tables: per-group rows partition the ungrouped rows; a group is only reported on chromosomes where it has reads
         groups_on_chr = defaultdict(set)
         for rc_ in recs:
